@@ -121,7 +121,7 @@ func runC04(ctx *vh.Ctx) error {
 		}
 		return c04One(ctx, &c)
 	}
-	n := ctx.N(1500, 40000)
+	n := ctx.N(6000, 40000)
 	for i := 0; i < n && ctx.TimeLeft(); i++ {
 		o := gcase.GenOpts{Mode: "mixed", MaxNodes: 6, Depth: 1, Cycles: true, FailPct: 3, BranchPct: 20}
 		g := gcase.Gen(ctx.Rng, o)
